@@ -15,6 +15,7 @@ class DefNet:
     def __init__(self, name):
         self.name = name
         self.pins = []
+        self.routed = []
 
     @property
     def wires(self):
